@@ -47,6 +47,19 @@ def _clients(port, n_clients, per_client, failures, desc):
                     except jsonrpclib.jsonrpc.ProtocolError as e:
                         if tag not in str(e):
                             errs.append("error of another request: %s" % (e,))
+                elif j % 4 == 3 and k % 2 == 1:
+                    # a client that announces more bytes than it sends and goes away
+                    import socket
+                    s_ = socket.create_connection(("127.0.0.1", port), timeout=5)
+                    s_.sendall(b"POST / HTTP/1.0\r\nContent-Type: application/json\r\nContent-Length: 500\r\n\r\n{\"jsonrpc\": \"2.0\", " + tag.encode())
+                    s_.shutdown(socket.SHUT_WR)
+                    try:
+                        s_.settimeout(5)
+                        while s_.recv(4096):
+                            pass
+                    except Exception:      # noqa
+                        errs.append("no reply (or no close) for a request shorter than its Content-Length")
+                    s_.close()
                 elif j % 4 == 3:
                     c = http.client.HTTPConnection("127.0.0.1", port, timeout=5)
                     c.request("POST", "/", body=b"{not json " + tag.encode(), headers={"Content-Type": "application/json"})
